@@ -35,7 +35,7 @@ func init() {
 
 var c06Bases = []string{"data", "backup", "set2", "extra.", "par2", "plain", "with space", "my[1]", "open[bracket", "star*name", "q?mark", "back\\slash", "a.b.c", "[x]-y z*", "vol00+01", "tab\tname", "{brace}", "UPPER.PAR2x", "-dash", "ünï"}
 var c06VolNames = []string{"vol00+01", "vol0+1", "recovery 1", "[a]", "x*y", "q?", "b\\c", "vol01+02", "part.two", "vol000+100", "..", "z", "vol3+4 (copy)", "{1}", "ä"}
-var c06Fixed = []string{"glob-base", "volume-without-main", "dup-main-in-volume"}
+var c06Fixed = []string{"glob-base", "volume-without-main", "dup-main-in-volume", "limit-32768-slices"}
 
 func (c *c06) Cases(tier string, seed int64) []core.Case {
 	var cs []core.Case
@@ -72,6 +72,13 @@ func (c *c06) Run(cs core.Case) core.Result {
 	set := genP2Set(rng, 5, []string{"random"}, true)
 	if set.SliceSize > 512 {
 		set.SliceSize = 64
+	}
+	if p.Fixed == "limit-32768-slices" {
+		// the most slices a PAR 2.0 recovery set can have
+		set = scen.Set{SliceSize: 4, Blocks: 3, Content: "random", Files: []scen.File{
+			{Name: "most.bin", Data: scen.GenData(rng, "random", 4*32760-1, 4)},
+			{Name: "rest.bin", Data: scen.GenData(rng, "random", 4*8, 4)},
+		}}
 	}
 	var in []par2rw.InFile
 	for _, f := range set.Files {
